@@ -1,0 +1,12 @@
+// SPDX-FileCopyrightText: 2026 The Pion community <https://pion.ly>
+// SPDX-License-Identifier: MIT
+
+//go:build verif
+
+package pacing
+
+// Machine-checked contracts (comment-only; read by /verif/govc, never compiled into a normal build).
+//
+// Property C02 (safety only): the pacing writer queues a copy of the packet and never indexes outside its payload.
+//@ func (*Interceptor).BindLocalStream$1
+//@   modifies *
